@@ -49,6 +49,10 @@ class ExtMixin(object):
             return LoggerV()
         if name.endswith("Exception") or name.endswith("Error"):
             return ExcV(fn, args)
+        if base[0] in ("scipy", "numpy", "np"):
+            kw = tuple(sorted((k, v.key()) for k, v in kwargs.items()))
+            self.log_event(("extcall", name))
+            return Opaque(("extcall", name, tuple(a.key() for a in args), kw))
         self.err(node, "call of external %s" % name)
 
     # -- numeric builtins
@@ -399,6 +403,44 @@ class ExtMixin(object):
         if isinstance(fields, ListV) and all(isinstance(f, Const) for f in fields.items):
             return NTClassV(name.v if isinstance(name, Const) else repr(name), [f.v for f in fields.items])
         self.err(node, "namedtuple with symbolic fields")
+
+    def x_inspect_getmembers(self, args, kwargs, node, env):
+        """members of a repo module (sorted by name) satisfying a predicate that is evaluated abstractly;
+        only module-level callables (instances with __call__, functions) are considered"""
+        mod, pred = args[0], args[1]
+        if not (isinstance(mod, ModV) and mod.module is not None):
+            self.err(node, "inspect.getmembers of %r" % (mod,))
+        names = set(mod.module.bindings)
+        for t in mod.module.star_imports:
+            tm = self.p.modules.get(t)
+            if tm is not None:
+                names |= set(n for n in tm.bindings if not n.startswith("_"))
+        out = []
+        pname = pred.name if isinstance(pred, ExtV) else None
+        for nm in sorted(names):
+            b = mod.module.bindings.get(nm)
+            v = self.module_global(mod.module, nm, node)
+            if v is None:
+                continue
+            if pname == "inspect.isfunction":
+                ok = isinstance(v, FuncV) and v.fi.module is mod.module
+            elif isinstance(pred, FuncV):
+                if pred.fi.name == "_iscallable":
+                    # not a class, callable, and flagged is_potential (the flag is evaluated from the source)
+                    if isinstance(v, ClassV) or not (isinstance(v, FuncV) or (isinstance(v, InstV) and v.ci.lookup("__call__"))):
+                        continue
+                    fl = self.hasattr(v, "is_potential")
+                    ok = fl is True and self.truth(self.getattr(v, "is_potential", node)) is True
+                else:
+                    if isinstance(v, (ModV, ExtV)):
+                        continue
+                    r = self.truth(self.call(pred, [v], {}, node, env))
+                    ok = r is True
+            else:
+                self.err(node, "inspect.getmembers predicate %r" % (pred,))
+            if ok:
+                out.append(ListV([Const(nm), v], "tuple"))
+        return ListV(out, "list")
 
     def x_collections_OrderedDict(self, args, kwargs, node, env):
         return self.x_dict(args, kwargs, node, env)
